@@ -68,6 +68,11 @@ func c04Run(c *core.Ctx) {
 				})
 			}
 		}
+		wideItems(f, false, func(it *corpus.Item, src, why string) {
+			if c.Next() {
+				c04One(c, mkCase(src, f.V, why))
+			}
+		})
 		for _, big := range bigPrograms(f, 2500) {
 			for _, nl := range []string{"\n", "\r\n", "\r"} {
 				if !c.Next() {
